@@ -681,7 +681,40 @@ fn history(w: &mut dyn Write, rng: &mut Rng, kind: &str, mut n: u32, hcfg: &Hist
     writeln!(w, "dump").unwrap();
 }
 
+/// a collection that frees more than one allocation chunk (65536 nodes) at once, followed by
+/// re-allocation of at least as many nodes: recycled slots must not be handed out twice
+fn big_gc_case(rng: &mut Rng, w: &mut dyn Write, kind: &str) {
+    let n = 12u32;
+    writeln!(w, "case c05-biggc-{}", kind).unwrap();
+    writeln!(w, "mgr nodes=1048576 cache=4096 threads=1 vars={}", n).unwrap();
+    for round in 0..2 {
+        let mut pool: Vec<String> = Vec::new();
+        for v in (if zbdd(kind) { 7 } else { 6 })..n {
+            writeln!(w, "var x{}_{} {}", round, v, v).unwrap();
+            writeln!(w, "notvar nx{}_{} {}", round, v, v).unwrap();
+            pool.push(format!("x{}_{}", round, v));
+            pool.push(format!("nx{}_{}", round, v));
+        }
+        for s in 0..(if zbdd(kind) { 30000 } else { 42000 }) {
+            let name = format!("g{}_{}", round, s);
+            let lo = pool.len().saturating_sub(3000);
+            writeln!(w, "op {} {} {} {}", name, rng.pick(&BIN_OPS), rng.pick(&pool[lo..]), rng.pick(&pool)).unwrap();
+            pool.push(name);
+        }
+        writeln!(w, "nodes").unwrap();
+        for _ in 0..40 {
+            writeln!(w, "show {}", rng.pick(&pool)).unwrap();
+        }
+        writeln!(w, "dropall").unwrap();
+        writeln!(w, "gc").unwrap();
+    }
+    writeln!(w, "dump").unwrap();
+}
+
 fn gen_hist(cfg: &GenCfg, rng: &mut Rng, w: &mut dyn Write, kind: &str, suite: &str) {
+    if suite == "c05" && (cfg.thorough || kind == "bdd") {
+        big_gc_case(rng, w, kind);
+    }
     let cases = match (suite, cfg.thorough) {
         (_, false) => 40,
         (_, true) => 600,
